@@ -247,7 +247,7 @@ static void doc_family(FILE *out, vf::Rng &rng, int w, bool families) {
 // values that pointer-to-value members refer to (they outlive every tree)
 template <typename Ch>
 static const Value<Ch> *pointee(vf::Rng &rng, bool release = false) {
-    static Value<Ch> pool[10];
+    static Value<Ch> pool[12];
     static bool      init = false;
     if (release) {   // end of the run: give the pool back before the ledger is read
         for (auto &x : pool) x.Reset();
@@ -270,11 +270,12 @@ static const Value<Ch> *pointee(vf::Rng &rng, bool release = false) {
         const Ch k[] = {Ch('k'), Ch(0)};
         pool[7][(const Ch *)k] = (SizeT64)1;
         // pool[8] stays Undefined: a pointer to it has nothing to print (the member / element is left out, like an Undefined one);
-        // and so has a pointer to a pointer to it.  (A pointer to a pointer to a DEFINED value is not generated: the library's Is*() /
-        // Get*() accessors forward one level only, so the tree such a member denotes is not observable through the public API.)
+        // and so has a pointer to a pointer to it; pointers to pointers to a string and to an array
         pool[9].SetPointerToValue(&pool[8]);
+        pool[10].SetPointerToValue(&pool[0]);
+        pool[11].SetPointerToValue(&pool[6]);
     }
-    return &pool[rng.below(10)];
+    return &pool[rng.below(12)];
 }
 template <typename Ch>
 static Value<Ch> rnd_tree(vf::Rng &rng, int depth) {
